@@ -5,3 +5,4 @@ cd "$(dirname "$0")"
 export CARGO_NET_OFFLINE=true
 (cd driver && cargo +nightly build --offline)
 python3 -m sa.dump default
+python3 -c "from sa import fixture; fixture.ensure()"
